@@ -61,15 +61,15 @@ CLAIMED = {
              ref="DESIGN.md 4 C05"),
  "C06": dict(technique="Kani contracts on the mode of operation with Compressor::input as uninterpreted function + call log; F8 wiring and bit-slice == E8 contracts; Verus conjugation lemma",
              text="Compression function F8 == the JH specification's E8 with the message XORs (see note) on every backend; padding (one block iff block-aligned, else two), 128-bit big-endian bit length, chaining, output = tail of the 1024-bit state, byte counter exact -- for a symbolic chaining value and byte count; initial values.",
-             note="F8: ss / l leaf contracts per backend and the wiring of Compressor::input (42 rounds, round-constant selection, swap schedule, message XORs) through the real dispatch. Bit-sliced F8 == the specification's nibble-oriented E8: the bit-slice formulation the crate is proved equal to is related to the JH document's E8 (256 four-bit elements, S0/S1, L, P8, grouping) by computed round-dependent layouts: grouping/de-grouping (J1), one round for each of the 7 layout classes with symbolic state and constant (J2), the 42 bit-sliced round constants decode to C_r = R6(C_{r-1}) from the sqrt(2) seed (J3), layouts well formed and 7-periodic (J4), composed by a Verus conjugation lemma; initial values == F8(digest-size block, 0). Remaining trust: the instantiation of the generic Verus lemma and the swap operations' C12 contracts.",
+             note="F8: ss / l leaf contracts per backend and the wiring of Compressor::input (42 rounds, round-constant selection, swap schedule, message XORs) through the real dispatch. Bit-sliced F8 == the specification's nibble-oriented E8: the bit-slice formulation the crate is proved equal to is related to the JH document's E8 (256 four-bit elements, S0/S1, L, P8, grouping) by computed round-dependent layouts: grouping/de-grouping (J1), one round for each of the 7 layout classes with symbolic state and constant (J2), the 42 bit-sliced round constants decode to C_r = R6(C_{r-1}) from the sqrt(2) seed (J3), layouts well formed and 7-periodic (J4), composed by a Verus conjugation lemma (quick runs J3 as six 7-round segments); initial values == F8(digest-size block, 0). Remaining trust: the instantiation of the generic Verus lemma and the swap operations' C12 contracts.",
              ref="DESIGN.md 4 C06"),
  "C07": dict(technique="Kani contracts on the mode of operation with init/tf/of as uninterpreted functions + call log",
              text="Compression function == specification P and Q (see note); IV = output size big-endian, padding with the 64-bit big-endian block count including padding blocks for every 64-bit counter value, one-vs-two final blocks at the <=8-bytes-left boundary, output transformation and truncation windows, reset of the truncated variants.",
-             note="Compression function: one round of P||Q (512) and submix after the spec-derived pre-shuffle (1024, P and Q shift vectors) are proved equal to AddRoundConstant/SubBytes/ShiftBytes/MixBytes of the specification for EVERY byte substitution table (AESENCLAST modelled as ShiftRows, table lookup, xor key: trusted instruction model; the specification's S-box is the AES S-box); tf512/of512/tf1024/of1024/init wiring with the round layer as uninterpreted function against h ^ P(h^m) ^ Q(m) and trunc(P(h)^h); mul2 and the matrix transposes by leaf contracts. The #[target_feature] wrapper modules and the lazy_static function-pointer table selected from CPUID are proved to forward to the matching *_impl with unchanged arguments (CPUID model: SSE2-only, SSSE3, AES).",
+             note="Compression function: one round of P||Q (512) and submix after the spec-derived pre-shuffle (1024, P and Q shift vectors) are proved equal to AddRoundConstant/SubBytes/ShiftBytes/MixBytes of the specification for EVERY byte substitution table (AESENCLAST modelled as ShiftRows, table lookup, xor key: trusted instruction model; the specification's S-box is the AES S-box); tf512/of512/tf1024/of1024/init wiring with the round layer as uninterpreted function against h ^ P(h^m) ^ Q(m) and trunc(P(h)^h); mul2 and the matrix transposes by leaf contracts. The two round lemmas are single 15-minute queries (thorough) and are also partitioned by output columns into 2 x 8 harnesses; quick runs the even column pairs. The #[target_feature] wrapper modules and the lazy_static function-pointer table selected from CPUID are proved to forward to the matching *_impl with unchanged arguments (CPUID model: SSE2-only, SSSE3, AES).",
              ref="DESIGN.md 4 C07"),
  "C08": dict(technique="Kani contracts: abstract-view contract of update ('the stream view grows by exactly the bytes given') from an arbitrary state for all 15 hash types; clone independence; reset/default equality; Verus lemma: any partition folds to the same abstract state (verus/chunking.rs)",
              text="update compresses exactly the complete blocks of pending++data in order with the right counters and keeps the remainder; a hasher's state is a function of the stream view, so every partition gives the same state; clone and reset contracts.",
-             note="Per-call shapes (fill, length <= 300). The partition-invariance step (eager and lazy buffering, any sequence of pieces) is the Verus lemma verus/chunking.rs over the per-call contract; its instantiation to the Kani contract is by inspection.",
+             note="Per-call shapes (fill, length <= 300); quick: boundary shapes incl. empty pieces on a full/nearly full buffer, thorough: dense grid. The partition-invariance step (eager and lazy buffering, any sequence of pieces) is the Verus lemma verus/chunking.rs over the per-call contract; its instantiation to the Kani contract is by inspection.",
              ref="DESIGN.md 4 C08"),
  "C17": dict(technique="Kani contracts: the counters are symbolic over their full range in the finalize/update contracts of every hash type; Verus contract on the extracted BLAKE increase_count (two-word carry)",
              text="BLAKE t (64/128-bit, carry between the words), Groestl block_counter (all 64 bits), JH datalen (< 2^61 bytes), Skein byte position (< 2^64) are symbolic in the mode-of-operation obligations, so every word-boundary crossing is covered.",
